@@ -116,6 +116,7 @@ class Run:
         self.key = M.hkey(h)
         self.removed = 0
         self.drops_done = []  # [(n, kind)] acknowledged drops
+        self.rewritten = []  # [(db, rp, rows)] written by the steps after a drop (sent once more after the restart)
         self.log = []  # executed statements (for the violation detail)
         self.offset = 0
         self.segs = M.segments(h)
@@ -128,12 +129,24 @@ class Run:
 class Driver:
     def __init__(self, tier, srv, runs, rep):
         self.tier, self.srv, self.runs, self.rep = tier, srv, runs, rep
+        # CREATE DATABASE iterates the catalogue's database map without its lock (statement_executor.go:getRetentionPolicyCount
+        # over metaclient Client.Databases()); a concurrent CREATE / DROP DATABASE applied to the same map kills the server with
+        # "fatal error: concurrent map iteration and map write" (seen once with 366 concurrent histories). Concurrent DDL is not
+        # this property (the histories are sequential; their concurrency is the harness's batching), so these two statements
+        # are issued one at a time.
+        self.dblock = threading.Lock()
 
     # ---------------------------------------------------------------- low level
-    def ddl(self, r, q, db=None, must=True):
+    def ddl(self, r, q, db=None, must=True, retry=None):
         t0 = time.time()
+        retry = must if retry is None else retry
+        serial = q.lower().startswith(("create database", "drop database"))
         while True:
-            st, js = self.srv.query(q, db=db, method="POST")
+            if serial:
+                with self.dblock:
+                    st, js = self.srv.query(q, db=db, method="POST")
+            else:
+                st, js = self.srv.query(q, db=db, method="POST")
             err = None
             if st != 200 or js is None:
                 err = "http %s %s" % (st, js)
@@ -142,8 +155,8 @@ class Driver:
                 err = res.get("error")
             # re-creating a container whose two-phase drop is still being carried out by the store is refused
             # for a moment ("is being delete"): retried, it is not a wrong answer
-            if err and must and BEING_DELETED.search(err) and time.time() - t0 < BARRIER_TIMEOUT:
-                self.rep.count("create_retries_while_being_deleted", 1)
+            if err and retry and BEING_DELETED.search(err) and time.time() - t0 < BARRIER_TIMEOUT:
+                self.rep.count("statement_retries_while_being_deleted", 1)
                 time.sleep(0.05)
                 continue
             break
@@ -325,6 +338,7 @@ class Driver:
         else:
             rows = [(r.m, M.skey("a", region), M.TS[4], {"v": 100003.5}), (r.m, M.skey("c", region), M.TS[4], {"v": 100004.5})]
         self.write(r, r.db, r.trp, rows, recreate=recreate)
+        r.rewritten.append((r.db, r.trp, rows))
         self.visible(r, [(r.db, r.trp, r.m)])
 
     def do_recreate(self, r, which):
@@ -340,7 +354,28 @@ class Driver:
         for q in recreate:
             self.ddl(r, q)
         self.write(r, r.db, r.trp, M.rc_rows(r.h, which), recreate=recreate)
+        r.rewritten.append((r.db, r.trp, M.rc_rows(r.h, which)))
         self.visible(r, [(r.db, r.trp, r.m)])
+
+    def do_again(self, r):
+        """After the restart: the points written by the steps after a drop are sent once more, unchanged (an idempotent
+        overwrite, only points that are still live in the reference). The shapes that return rows and the listings must not
+        change. (The count shapes are left out at this checkpoint: a point that is in a file and in the memtable is counted
+        twice by count() without hint - C09's subject, see notes.)"""
+        sent = False
+        for db, rp, rows in r.rewritten:
+            live = [(mst, series, ts, f) for mst, series, ts, f in rows
+                    if r.ref.data.get((db, rp, mst), {}).get(series, {}).get(ts, {}).get("v") == f.get("v")]
+            if live:
+                self.write(r, db, rp, live)
+                sent = True
+        if not sent:
+            return
+        self.rep.count("histories_with_rewrite_after_restart", 1)
+        self.visible(r, [(r.db, r.trp, r.m)])
+        for name, q, kind, params in self.shapes(r, r.trp, r.m, True):
+            if kind in ("rows", "grouped") or kind in M.LISTINGS:
+                self.one_read(r, "after_restart_rewrite", name, q, kind, params, r.db, r.trp, r.m)
 
     def drop_sql(self, r, n=1):
         d = M.drop_spec(r.h, n)
@@ -354,17 +389,18 @@ class Driver:
 
     def do_drop(self, r, n=1):
         q = self.drop_sql(r, n)
-        err = self.ddl(r, q, db=r.db, must=False)
+        # two-drop histories: a drop issued while the store is still carrying out the previous drop of the same database is
+        # refused with "... is being delete" (observed: DROP MEASUREMENT right after DROP RETENTION POLICY; it had already marked
+        # the measurement under the other policy, i.e. it is not atomic - DDL atomicity is not this property). Not acknowledged,
+        # so the statement is repeated until it is; the pruning rule admits only drops whose object exists, any other refusal is a
+        # harness error, not a verdict.
+        err = self.ddl(r, q, db=r.db, must=False, retry=r.two)
+        if err and r.two:
+            raise blackbox.ToolError("history %s: %s refused: %s" % (r.key, q, err))
         if err:
             # not acknowledged: the statement's precondition does not hold; counted, reference unchanged
             self.rep.count("drops_not_acknowledged", 1)
             self.rep.note("drop answered with an error (not acknowledged, reference unchanged): %s -> %s" % (q, err))
-            if r.two:
-                # the pruning rule of the two-drop product only admits drops whose object exists: an error is a wrong answer
-                self.rep.violation("admissible_drop_refused", "%s :: drop%d" % (r.key, n),
-                                   "history %s: %s -> %s\n  statements: %s" % (
-                                       r.key, q, err, " | ".join(x for x in r.log if not x.startswith("write"))), dict(r.h))
-                r.failed = True
             return
         self.rep.count("drops_acknowledged", 1)
         d = M.drop_spec(r.h, n)
@@ -444,6 +480,42 @@ class Driver:
             time.sleep(0.2)
         return "dropped_rp_still_listed_after_30s"
 
+    @staticmethod
+    def duplicated_rewritten(r, kind, params, db, rp, mst, exp, got):
+        """True if got = exp + a second copy of rows of series that were dropped by DROP SERIES and written again (the
+        series then has two live series ids; classification only)."""
+        import collections
+        sub = M.Ref()
+        k = (db, rp, mst)
+        buried = {s for s, rows in r.ref.ghost.get(k, {}).items() if any(f.get("_by") == "series" for f in rows.values())}
+        sub.data = {k: {s: rows for s, rows in r.ref.data.get(k, {}).items() if s in buried}}
+        if not sub.data[k]:
+            return False
+        d = M.expected(sub, db, rp, mst, kind, params)
+        try:
+            if kind == "rows":
+                extra = collections.Counter(map(tuple, got)) - collections.Counter(map(tuple, exp))
+                return bool(extra) and not (collections.Counter(map(tuple, exp)) - collections.Counter(map(tuple, got))) and \
+                    set(extra) <= set(map(tuple, d))
+            if kind == "grouped":
+                if set(got) != set(exp):
+                    return False
+                n = 0
+                for h in exp:
+                    extra = collections.Counter(map(tuple, got[h])) - collections.Counter(map(tuple, exp[h]))
+                    if (collections.Counter(map(tuple, exp[h])) - collections.Counter(map(tuple, got[h]))) or \
+                            not set(extra) <= set(map(tuple, d.get(h, []))):
+                        return False
+                    n += len(extra)
+                return n > 0
+            if kind == "count":
+                return exp < got <= exp + 3 * d
+            if kind in ("buckets", "gcount"):
+                return got != exp and set(got) == set(exp) and all(exp[x] <= got[x] <= exp[x] + 3 * d.get(x, 0) for x in exp)
+        except (TypeError, KeyError):
+            return False
+        return False
+
     def classify(self, r, label, name, kind, params, db, rp, mst, exp, got):
         """Names the defect (for the known-finding signatures); computed from the rows the drops buried; it never
         decides pass/fail: every mismatch is a violation whatever its name."""
@@ -474,6 +546,8 @@ class Driver:
                     return "dropped_series_back_after_restart" if after_restart else "dropped_series_still_returned"
             elif got == g_all:
                 return "dropped_%s_%s" % (r.dk, "back_after_restart" if after_restart else "still_returned")
+        if after_restart and self.duplicated_rewritten(r, kind, params, db, rp, mst, exp, got):
+            return "rewritten_dropped_series_duplicated_after_restart"
         if self.subset(got, exp, kind):
             return "data_lost"
         return "read_mismatch"
@@ -487,8 +561,19 @@ class Driver:
             return M.expected(r.ref, db, rp, mst, kind, params, with_ghost=pred)
         if after_restart and got == ex(lambda f: f.get("_mem") and f.get("_by") == "series") != exp:
             return "dropped_series_unflushed_rows_back_after_restart"
-        if last_n is not None and (got == ex(lambda f: f.get("_n") == last_n) or (kind in M.LISTINGS and got == M.expected(
-                r.ref, db, rp, mst, kind, params, with_ghost=lambda f: f.get("_n") == last_n, scope="rp"))):
+        if after_restart and self.duplicated_rewritten(r, kind, params, db, rp, mst, exp, got):
+            return "rewritten_dropped_series_duplicated_after_restart"
+        last = last_n is not None and (got == ex(lambda f: f.get("_n") == last_n) or (kind in M.LISTINGS and got == M.expected(
+            r.ref, db, rp, mst, kind, params, with_ghost=lambda f: f.get("_n") == last_n, scope="rp")))
+        if last and last_kind == "rp" and label in ("after_drop", "after_drop2"):
+            return "dropped_rp_still_returned"  # right after DROP RETENTION POLICY: the two-phase drop (see rp_listing)
+        if kind in M.LISTINGS:
+            def other(f):
+                return f.get("_by") == "measurement" and f.get("_rp") != rp
+            if got != exp and got in (ex(other), M.expected(r.ref, db, rp, mst, kind, params, with_ghost=other, scope="rp")):
+                # series of a measurement dropped under ANOTHER retention policy are listed for the same-named measurement of this one
+                return "dropped_measurement_listed_under_same_name_in_other_policy"
+        if last:
             # what the most recent drop removed is (still / again) returned
             return "dropped_%s_%s" % (last_kind, "back_after_restart" if after_restart else "still_returned")
         for n, k in reversed(r.drops_done[:-1]):
@@ -752,6 +837,8 @@ class Driver:
                 try:
                     self.visible(r, self.containers(r))
                     self.do_check(r, label)
+                    if label == "after_restart":
+                        self.do_again(r)
                 except Abandon:
                     self.rep.count("histories_abandoned_after_violation", 1)
             self.pool(after, rs)
